@@ -301,17 +301,27 @@ func (fc *FnCtx) freshVal(st *State, t types.Type, hint string) Val {
 
 // typeInv asserts the Go type invariant of scalar term c of type t.
 func (fc *FnCtx) typeInv(st *State, c string, t types.Type) {
+	fc.typeInvB(st, c, t, st.alloc())
+}
+
+// typeInvB: like typeInv, with an explicit bound on the age of the references inside c.
+func (fc *FnCtx) typeInvB(st *State, c string, t types.Type, bound string) {
 	switch fc.g.ti.sortOf(t) {
 	case sInt:
 		if lo, hi, ok := intRange(t); ok {
 			fc.q.assert(implies(st.reach, fmt.Sprintf("(and (<= %s %s) (<= %s %s))", lo, c, c, hi)))
 		}
 	case sSlice:
-		fc.q.assert(implies(st.reach, fmt.Sprintf("(and (<= 0 (slen %s)) (<= (slen %s) (scap %s)) (<= (rbase (sarr %s)) %s) (<= 0 (rbase (sarr %s))) (<= 0 (roff (sarr %s))) (=> (= (rbase (sarr %s)) 0) (and (= (scap %s) 0) (= (roff (sarr %s)) 0))))", c, c, c, c, st.alloc(), c, c, c, c, c)))
+		fc.q.assert(implies(st.reach, fmt.Sprintf("(and (<= 0 (slen %s)) (<= (slen %s) (scap %s)) (<= (rbase (sarr %s)) %s) (<= 0 (rbase (sarr %s))) (<= 0 (roff (sarr %s))) (=> (= (rbase (sarr %s)) 0) (and (= (scap %s) 0) (= (roff (sarr %s)) 0))))", c, c, c, c, bound, c, c, c, c, c)))
 	case sRef:
-		fc.q.assert(implies(st.reach, fmt.Sprintf("(and (<= 0 (rbase %s)) (<= (rbase %s) %s) (<= 0 (roff %s)) (=> (= (rbase %s) 0) (= (roff %s) 0)))", c, c, st.alloc(), c, c, c)))
+		fc.q.assert(implies(st.reach, fmt.Sprintf("(and (<= 0 (rbase %s)) (<= (rbase %s) %s) (<= 0 (roff %s)) (=> (= (rbase %s) 0) (= (roff %s) 0)))", c, c, bound, c, c, c)))
+		if pt, ok := t.Underlying().(*types.Pointer); ok {
+			if rt := fc.g.rootTypeConstraint(c, pt.Elem()); rt != "" {
+				fc.q.assert(implies(and(st.reach, not(eq(c, "nilref"))), rt))
+			}
+		}
 	case sIface:
-		fc.q.assert(implies(st.reach, fmt.Sprintf("(and (<= 0 (itag %s)) (<= 0 (rbase (iref %s))) (<= (rbase (iref %s)) %s) (=> (= (itag %s) 0) (= %s %s)))", c, c, c, st.alloc(), c, c, zeroOf(sIface))))
+		fc.q.assert(implies(st.reach, fmt.Sprintf("(and (<= 0 (itag %s)) (<= 0 (rbase (iref %s))) (<= (rbase (iref %s)) %s) (=> (= (itag %s) 0) (= %s %s)))", c, c, c, bound, c, c, zeroOf(sIface))))
 	case sStr:
 		fc.q.assert(fmt.Sprintf("(and (>= (strlen %s) 0) (= (= (strlen %s) 0) (= %s lit_empty)))", c, c, c))
 	}
@@ -346,6 +356,28 @@ func (fc *FnCtx) loadAt(st *State, addr Val, t types.Type) Val {
 	}
 	fc.g.regArr(arr, srt)
 	return Val{T: sel(st.get(arr), addr.T), Typ: t}
+}
+
+// loadAtInv: loadAt + a named constant carrying the Go type invariant (age of references bounded by the array's last write).
+func (fc *FnCtx) loadAtInv(st *State, addr Val, t types.Type, hint string) Val {
+	v := fc.loadAt(st, addr, t)
+	if addr.Local != nil || v.SV != nil {
+		return v
+	}
+	ti := fc.g.ti
+	srt := ti.sortOf(t)
+	if !needsInv(srt, t) {
+		return v
+	}
+	arr := addr.Arr
+	if arr == "" {
+		arr = ti.cellArray(t)
+	}
+	c := fc.q.freshConst(hint, srt)
+	fc.q.assert(implies(st.reach, eq(c, v.T)))
+	fc.typeInvB(st, c, t, st.boundOf(arr))
+	v.T = c
+	return v
 }
 
 // storeAt writes v (of Go type t) to address addr.
@@ -419,6 +451,11 @@ func (fc *FnCtx) fieldAddrOf(ref string, t types.Type, i int) Val {
 func (fc *FnCtx) allocObject(st *State, t types.Type) string {
 	ti := fc.g.ti
 	ref := st.newRef()
+	if _, isStruct := t.Underlying().(*types.Struct); isStruct {
+		if _, isNamed := types.Unalias(t).(*types.Named); isNamed {
+			fc.q.assert(implies(st.reach, fmt.Sprintf("(= (rootTy %s) %d)", st.alloc(), ti.typeID(types.Unalias(t)))))
+		}
+	}
 	var ls []Leaf
 	ti.leaves(t, 0, "", &ls)
 	if len(ls) > 400 {
@@ -492,7 +529,7 @@ func (g *Gen) genFunction(fn *ssa.Function, con *Contract, safety bool) *FnCtx {
 	}
 	fc.findLoops()
 	// entry state
-	st := &State{fc: fc, reach: "true", locals: map[*ssa.Alloc]string{}, heap: map[string]string{}, ghost: map[string]string{}, nonnil: map[string]bool{}}
+	st := &State{fc: fc, reach: "true", locals: map[*ssa.Alloc]string{}, heap: map[string]string{}, ghost: map[string]string{}, nonnil: map[string]bool{}, bounds: map[string]string{}, baseBound: "alloc0"}
 	st.allocB = fc.q.declare("alloc0", sInt)
 	fc.q.assert("(>= alloc0 0)")
 	for _, p := range fn.Params {
@@ -656,7 +693,7 @@ func (fc *FnCtx) loopWrites(li *loopInfo) (locals []*ssa.Alloc, arrs map[string]
 	lset := map[*ssa.Alloc]bool{}
 	for b := range li.blocks {
 		for _, in := range b.Instrs {
-			fr := fc.g.closeDeps(fc.g.instrFrame(fc.fn, in))
+			fr := fc.g.closeDeps(fc.g.instrFrame(fc.fn, in, false))
 			if fr.top {
 				top = true
 			}
@@ -664,7 +701,11 @@ func (fc *FnCtx) loopWrites(li *loopInfo) (locals []*ssa.Alloc, arrs map[string]
 				arrs[a] = true
 			}
 			for f := range fr.facts {
-				ghosts["fact:"+f] = true
+				if strings.HasPrefix(f, "$") {
+					ghosts[f] = true
+				} else {
+					ghosts["fact:"+f] = true
+				}
 			}
 			if s, ok := in.(*ssa.Store); ok {
 				if a, ok := s.Addr.(*ssa.Alloc); ok && fc.isSimpleLocal(a) {
@@ -707,8 +748,13 @@ func (fc *FnCtx) enterLoop(li *loopInfo, st *State) {
 	for _, a := range locals {
 		et := a.Type().Underlying().(*types.Pointer).Elem()
 		c := fc.q.freshConst(localName(a)+"@loop", fc.g.ti.sortOf(et))
+		old, had := st.locals[a]
 		st.locals[a] = c
 		fc.typeInv(st, c, et)
+		// monotone counter: every store to a inside the loop is a := a + positive constant
+		if had && fc.g.ti.sortOf(et) == sInt && fc.onlyIncremented(li, a) {
+			fc.q.assert(implies(st.reach, fmt.Sprintf("(>= %s %s)", c, old)))
+		}
 	}
 	if top {
 		st.havocAll()
@@ -721,6 +767,7 @@ func (fc *FnCtx) enterLoop(li *loopInfo, st *State) {
 		na := fc.q.freshConst("alloc@loop", sInt)
 		fc.q.assert(implies(st.reach, fmt.Sprintf("(>= %s %s)", na, st.alloc())))
 		st.allocB, st.allocK = na, 0
+		st.fixBounds()
 	}
 	for gk := range st.ghost {
 		if ghosts[gk] || strings.HasPrefix(gk, "#") && ghosts[strings.SplitN(gk, ".", 2)[0]] {
@@ -739,6 +786,9 @@ func (fc *FnCtx) enterLoop(li *loopInfo, st *State) {
 					st.ghost[k] = fc.q.freshConst("g_"+k+"@loop", fc.ghostSort[k])
 				}
 			}
+		} else if strings.HasPrefix(gk, "$") {
+			fc.gvarGet(st, gk)
+			st.ghost[gk] = fc.q.freshConst("gv_"+sanitize(gk[1:])+"@loop", sInt)
 		} else if strings.HasPrefix(gk, "fact:") {
 			st.ghost[gk] = fc.q.freshConst("g_"+gk+"@loop", sBool)
 			fc.ghostSort[gk] = sBool
@@ -750,6 +800,32 @@ func (fc *FnCtx) enterLoop(li *loopInfo, st *State) {
 	st.nonnil = map[string]bool{}
 	// phis of the header are havocked in execBlock; assume invariants after phis are defined
 	li.headSt = st
+}
+
+func (fc *FnCtx) onlyIncremented(li *loopInfo, a *ssa.Alloc) bool {
+	n := 0
+	for b := range li.blocks {
+		for _, in := range b.Instrs {
+			s, ok := in.(*ssa.Store)
+			if !ok || s.Addr != ssa.Value(a) {
+				continue
+			}
+			n++
+			bo, ok := s.Val.(*ssa.BinOp)
+			if !ok || bo.Op != token.ADD {
+				return false
+			}
+			ld, ok := bo.X.(*ssa.UnOp)
+			if !ok || ld.Op != token.MUL || ld.X != ssa.Value(a) {
+				return false
+			}
+			c, ok := bo.Y.(*ssa.Const)
+			if !ok || c.Value == nil || c.Int64() <= 0 {
+				return false
+			}
+		}
+	}
+	return n > 0
 }
 
 // assumeLoopInv is called after the header's phis have been given fresh values.
@@ -853,7 +929,25 @@ func (fc *FnCtx) finish() {
 	if fc.con == nil {
 		return
 	}
+	// frame: a declared `modifies`/`pure` is an obligation, not an assumption: every cell that existed at entry and
+	// lies in an array outside the declared frame keeps its value
+	if fc.con.Modifies != nil || fc.con.Pure {
+		declared := fc.con.frame(fc.g)
+		if !declared.top {
+			for _, a := range sortedKeys(exit.heap) {
+				if declared.arrs[a] {
+					continue
+				}
+				o, n := fc.entry.get(a), exit.get(a)
+				if o == n {
+					continue
+				}
+				fc.oblige(exit, "frame", a, fmt.Sprintf("(forall ((fr Ref)) (=> (and (<= (rbase fr) alloc0) (<= 0 (rbase fr))) (= (select %s fr) (select %s fr))))", n, o), fc.fn.Pos(), nil)
+			}
+		}
+	}
 	env := fc.selfEnv(fc.entry, exit, results)
+	env.frameArrs = sortedKeys(exit.heap)
 	for _, c := range fc.con.Ensures {
 		t, err := fc.evalBool(env, c.Expr)
 		if err != nil {
